@@ -69,6 +69,8 @@ def classify(op, expected, got):
     k = op[0]
     if isinstance(got, tuple) and got and got[0] == "raise":
         return "raises " + got[1]
+    if k == "getmany":
+        return "bulk look-up answers differ from the individual look-ups"
     if k in ("list_fns", "list_mems"):
         return "lists entries that are not live" if len(got) > len(expected) else (
             "does not list a live entry" if len(got) < len(expected) else "lists wrong entries")
